@@ -15,10 +15,14 @@ use std::cell::Cell;
 use std::sync::{Condvar, Mutex};
 use std::time::Duration;
 
-#[derive(Clone, Copy, Debug, PartialEq, Eq)]
+#[derive(Clone, Debug, PartialEq, Eq)]
 enum Status {
     Runnable,
-    BlockedRecv,
+    /// blocked in a receive on the named channel: enabled while an item is pending
+    BlockedRecv(String),
+    /// blocked in a receive with a deadline: always enabled; scheduling it with nothing pending
+    /// means "the deadline fires now" (an environment answer enumerated like any other choice)
+    BlockedTimed(String),
     WaitQuiescent,
     Finished,
 }
@@ -45,7 +49,9 @@ struct State {
     prefix: Vec<usize>,
     threads: Vec<Status>,
     running: usize,
-    pending: usize,
+    /// pending items per channel (channels are named by the code under test: a window IRI for a
+    /// window -> worker channel, "results" for the worker -> coordinator channel)
+    pending: std::collections::HashMap<String, usize>,
     trace: Trace,
 }
 
@@ -66,9 +72,9 @@ fn generation() -> u64 {
 const STUCK: Duration = Duration::from_secs(10);
 
 fn enabled_list(st: &State) -> Vec<usize> {
-    let is_enabled = |i: usize| match st.threads[i] {
-        Status::Runnable => true,
-        Status::BlockedRecv => st.pending > 0,
+    let is_enabled = |i: usize| match &st.threads[i] {
+        Status::Runnable | Status::BlockedTimed(_) => true,
+        Status::BlockedRecv(key) => st.pending.get(key).copied().unwrap_or(0) > 0,
         Status::WaitQuiescent | Status::Finished => false,
     };
     let mut v = Vec::new();
@@ -170,7 +176,7 @@ pub fn session_begin(prefix: &[usize]) {
         prefix: prefix.to_vec(),
         threads: vec![Status::Runnable],
         running: 0,
-        pending: 0,
+        pending: std::collections::HashMap::new(),
         trace: Trace::default(),
     });
     ME.with(|m| m.set(Some((gen, 0))));
@@ -236,11 +242,11 @@ pub fn point() {
     });
 }
 
-/// After a successful channel send.
-pub fn note_send() {
+/// After a channel send on the named channel.
+pub fn note_send(channel: &str) {
     with_me(|me, mut guard| {
         let st = guard.as_mut().unwrap();
-        st.pending += 1;
+        *st.pending.entry(channel.to_string()).or_insert(0) += 1;
         if st.running != me {
             return;
         }
@@ -251,11 +257,11 @@ pub fn note_send() {
 }
 
 /// Before a blocking receive: the thread is enabled only while an item is pending.
-pub fn before_recv() {
+pub fn before_recv(channel: &str) {
     with_me(|me, mut guard| {
         let st = guard.as_mut().unwrap();
         let my_generation = st.generation;
-        st.threads[me] = Status::BlockedRecv;
+        st.threads[me] = Status::BlockedRecv(channel.to_string());
         decide(st);
         CV.notify_all();
         wait_turn(me, guard);
@@ -268,12 +274,42 @@ pub fn before_recv() {
     });
 }
 
-/// After a receive returned an item.
-pub fn after_recv() {
+/// After a receive (blocking, timed or try_) returned an item from the named channel.
+pub fn after_recv(channel: &str) {
     with_me(|_, mut guard| {
         let st = guard.as_mut().unwrap();
-        st.pending = st.pending.saturating_sub(1);
+        if let Some(n) = st.pending.get_mut(channel) {
+            *n = n.saturating_sub(1);
+        }
     });
+}
+
+/// Before a receive with a deadline. Returns the timeout the code should really use: effectively
+/// infinite when an item is pending (the receive returns it), zero when the scheduler decided that
+/// the deadline fires now (nothing pending: the receive reports a timeout at once). Outside a
+/// session the argument is returned unchanged.
+pub fn timeout_seam(channel: &str, remaining: Duration) -> Duration {
+    with_me(|me, mut guard| {
+        let st = guard.as_mut().unwrap();
+        let my_generation = st.generation;
+        st.threads[me] = Status::BlockedTimed(channel.to_string());
+        decide(st);
+        CV.notify_all();
+        wait_turn(me, guard);
+        let mut guard = STATE.lock().unwrap();
+        match guard.as_mut() {
+            Some(st) if st.active && st.generation == my_generation => {
+                st.threads[me] = Status::Runnable;
+                if st.pending.get(channel).copied().unwrap_or(0) > 0 {
+                    Duration::from_secs(3600)
+                } else {
+                    Duration::ZERO
+                }
+            }
+            _ => remaining,
+        }
+    })
+    .unwrap_or(remaining)
 }
 
 /// The controlling thread waits until every other thread is blocked on an empty channel or done.
